@@ -64,6 +64,11 @@ def check(repo, col, tier):
     uniformity_guards(repo, col, fi, ex, "R-C13-uniform")
     col.rule("R-C13-dtypes", "the averaged rows get back the column types of the whole table", 2)
     restored_dtypes(repo, col, fi, ex, "R-C13-dtypes")
+    # set_ncomp(..., min_radius=m) on an SWC cell rebuilds the radii with build_radiuses_from_xyzr: centres, own radius function, and the
+    # clip at min_radius applied to the array that is returned (shared with C16)
+    from . import c16 as _c16
+    col.rule("R-C13-radius", "radii rebuilt from the SWC profile: centres, own radius function, lower clip in the returned array", 4)
+    _c16._forms(repo, col.renamed({"R-C16-forms": "R-C13-radius"}))
     col.rule("R-C13-iter", "branches are handed out one at a time, so set_ncomp inside a loop over branches sees current rows", 2)
     from . import c11
     c11.lazy_iteration(repo, col, "R-C13-iter")
